@@ -208,6 +208,15 @@ def run(ctx):
     # the documented default destination: no -o -> standard output (one real process)
     ctx.bound("default-output: one run of `python -m gaftools phase GAF TSV` without -o on 6 records; standard output must hold the same records")
     evaluate(ctx, "default-output", {"kind": "stdout", "gaf": gaf[:6], "tsv": tsv[:12]}, d)
+    # a haplotag table larger than any read-ahead buffer (1.7 MB, 60000 reads): reads listed first, in the middle and last must all be found
+    # (added after seeded change C20-6)
+    n_big = 60000
+    big = [HEADER] + ["read_%07d\tH%d\t%d\tchr%d" % (i, 1 + i % 2, 40000 + i, 1 + i % 7) for i in range(n_big)]
+    picks = [0, 1, n_big // 2, n_big - 2, n_big - 1] + [rng.randrange(n_big) for _ in range(5)]
+    gaf_big = [rec("read_%07d" % k, *PATHS[j % len(PATHS)], OPTS[j % len(OPTS)]) for j, k in enumerate(picks)] + [rec("unlisted", ">s1", "+", [])]
+    ctx.bound("large-tsv: one haplotag TSV of %d reads (%d bytes) with %d records of reads listed first, in the middle, last and at random"
+              % (n_big, sum(len(l) + 1 for l in big), len(gaf_big)))
+    evaluate(ctx, "large-tsv", {"gaf": gaf_big, "tsv": big}, d)
     n_files = 400 if q else 8000
     ctx.bound("random: %d files of 0-40 records (several alignments per read, unlisted reads, names with blanks, 0-6 random optional fields "
               "over the whole tag grammar, cg:Z anywhere or absent, ds:Z), TSV with 0-2 entries per read in file or shuffled order, optional "
